@@ -42,7 +42,8 @@ ANCHORS = [
      'chi._population_models.ReducedPopulationModel.compute_sensitivities']
 REQUIRED = {'value_compared': 200, 'layout_pairs_compared': 200,
             'gradient_forms_compared': 200, 'psi_compared': 100,
-            'layout_matrix': 30, 'layout_tensor': 30}
+            'layout_matrix': 30, 'layout_tensor': 30,
+            'pointmass_cases': 100}
 
 KINDS = [('G', True), ('G', False), ('L', True), ('L', False), ('T', True),
          ('P', True), ('H', True)]
@@ -446,8 +447,82 @@ def support_case(ctx, rng, idx):
                       {'shape': np.asarray(out[1]).shape}, feats)
 
 
+DELTAS = [0.0, 1.0, 4.0, 1e3, 1e6, 1e9, 1e12, 1e14]     # in units of ulp
+
+
+def pointmass_case(ctx, rng, idx):
+    """pooled / heterogeneous models are point masses: individual parameters
+    that differ from the population value by ANY amount (one unit in the last
+    place upwards) score -inf, equal ones score 0; bare, in every layout and as
+    a part of a composed model next to a regular part"""
+    kind = 'PH'[idx % 2]
+    n_dim = int(rng.integers(1, 4))
+    n_ids = int(rng.integers(1, 6))
+    layout = LAYOUTS[(idx // 2) % 3]
+    composed = (idx // 6) % 2 == 1
+    leaf = GP.make_leaf(kind, n_dim, True, 0, None, n_ids)
+    theta = GP.leaf_top(rng, leaf, n_ids) * float(
+        rng.choice([1e-3, 1.0, 1.0, 1e3]))
+    arr, th = _layout(theta, leaf, n_ids, layout, rng)
+    psi = _obs(rng, leaf, th, n_ids)
+    ulps = float(DELTAS[(idx // 12) % len(DELTAS)])
+    i, d = int(rng.integers(n_ids)), int(rng.integers(n_dim))
+    pert = psi.copy()
+    if ulps:
+        step = np.spacing(abs(pert[i, d])) * ulps * float(rng.choice([-1, 1]))
+        pert[i, d] = pert[i, d] + step
+        if pert[i, d] == psi[i, d]:
+            ulps = 0.0
+    expect = 0.0 if ulps == 0 else -np.inf
+    feats = {'kind': kind, 'n_dim': n_dim, 'n_ids': n_ids, 'layout': layout,
+             'composed': composed, 'ulps': ulps}
+    ctx.case(('pointmass', kind, n_dim, min(n_ids, 3), layout, composed,
+              ulps), True, sample=dict(feats, parameters=arr,
+                                       observations=pert))
+    ctx.count('pointmass_cases')
+    try:
+        if not composed:
+            model = GP.build_chi_leaf(leaf, n_ids)
+            model.set_n_ids(n_ids)
+            val = model.compute_log_likelihood(arr, pert)
+            s_red = model.compute_sensitivities(arr, pert, reduce=True)[0]
+            s_sep = model.compute_sensitivities(arr, pert)[0]
+            ref = expect
+        else:
+            g = GP.make_leaf('G', 1, True, 0, None, n_ids)
+            first = bool(rng.integers(2))
+            leaves = [g, leaf] if first else [leaf, g]
+            model = GP.build_chi(leaves, n_ids)
+            model.set_n_ids(n_ids)
+            gtheta = GP.leaf_top(rng, g, n_ids)
+            gobs = GP.leaf_bottom(rng, g, n_ids)
+            parts = [gtheta, theta] if first else [theta, gtheta]
+            obs = np.hstack([gobs, pert] if first else [pert, gobs])
+            vec = np.concatenate(parts)
+            val = model.compute_log_likelihood(vec, obs)
+            s_red = model.compute_sensitivities(vec, obs, reduce=True)[0]
+            s_sep = model.compute_sensitivities(vec, obs)[0]
+            gl = float(np.real(g.logp(
+                np.broadcast_to(gtheta.reshape(2, 1)[None], (n_ids, 2, 1)),
+                gobs)))
+            ref = expect + gl
+    except Exception as e:      # noqa
+        ctx.violation_exc('evaluation_raises', e, {'case': feats}, feats)
+        return
+    for name, got in (('value', val), ('s1_reduced', s_red),
+                      ('s1_separate', s_sep)):
+        ok = (got == -np.inf) if ref == -np.inf else ctx.close(
+            got, ref, rtol=1e-10, scale=abs(ref) + 1)
+        if not ok:
+            ctx.violation('point_mass_density',
+                          'point_mass:%s:%s' % (kind, name),
+                          {'chi': got, 'reference': ref, 'ulps': ulps,
+                           'parameters': arr, 'observations': pert}, feats)
+
+
 FAMILIES = [
     Family('leaf', leaf_case, quick=4200, thorough=84000),
     Family('composed', composed_case, quick=1500, thorough=30000),
     Family('support', support_case, quick=300, thorough=3000),
+    Family('pointmass', pointmass_case, quick=768, thorough=7680),
 ]
